@@ -167,4 +167,16 @@ def search(ctx, broken):
                         "case": r}
     except Exception:
         pass
+    try:
+        # a statement the real parsers decide differently from the table-driven mirror of the model (same tables)
+        rows = c17.hparse(["-mode", "seqs", "-n", "600", "-seed", str(ctx.seed)])
+        for r in rows:
+            if r["kind"] in ("derivation", "sentence-variant"):
+                continue          # their text is re-rendered after the mirror ran
+            if r["accepted"] != r["ref_accepted"]:
+                return {"kind": "real-parser-vs-table-driven-reference", "case": r}
+            if r["sem_accepted"] and not r["ref_accepted"]:
+                return {"kind": "semantic-accepts-more-than-the-grammar", "case": r}
+    except Exception:
+        pass
     return c17.search(ctx, broken)
